@@ -1,11 +1,12 @@
 #!/bin/bash
 # usage: tools/sweep.sh <tier> <seed...>   — runs every check at the given seeds, prints one line per run
 # (used through `vp run` from a snapshot; evidence written there is not the committed evidence)
+# VERIF_PROPS="C02 C06" restricts the sweep to some properties
 export GOFLAGS=-mod=mod GOPROXY=off GOSUMDB=off GOTOOLCHAIN=local
 TIER=$1; shift
 mkdir -p bin evidence replays && go build -o bin/vcheck ./cmd/vcheck || exit 2
 for s in "$@"; do
-  for p in C01 C02 C03 C04 C05 C06 C07 C08 C09 C10 C11 C12 C13 C14 C15 C16 C17 C18 C19 C20; do
+  for p in ${VERIF_PROPS:-C01 C02 C03 C04 C05 C06 C07 C08 C09 C10 C11 C12 C13 C14 C15 C16 C17 C18 C19 C20}; do
     t0=$(date +%s)
     VERIF_SEED=$s bin/vcheck -p $p -tier $TIER > sweep_${p}_${s}.log 2>&1; rc=$?
     t1=$(date +%s)
